@@ -46,17 +46,18 @@ def _analyse():
 _analyse.__name__ = "analyse"
 
 
-def bounded_task(seed):
+def bounded_task(seed, tier="quick"):
     def run():
         from bounded import c14
         t0 = time.time()
-        hit = c14.search(seed)
+        kn = 400 if tier == "quick" else 100000
+        hit = c14.search(seed, keep_n=kn)
         out = []
         r = OR(id=f"{PROP}.Bd.reader.fixed_vs_free", status=REFUTED if hit else PROVED, kind="Bd", role="bounded",
                target="ford.reader.FortranReader(fixed=True) = convertToFree + free-form reader",
                desc="one token-level program rendered in both forms: continuation character, break position between tokens, comment style, "
                     "comment lines between continuation lines, labels, sequence field, inline / own-line doc comments",
-               bound=f"{c14.count_cases(seed)} renderings drawn (seeded) from the full product; breaks between tokens only", cases=c14.count_cases(seed),
+               bound=f"{c14.count_cases(seed, kn)} renderings drawn (seeded) from the full product; breaks between tokens only", cases=c14.count_cases(seed, kn),
                seconds=time.time() - t0, backend="enumeration")
         if hit:
             r.replay, r.witness = hit, hit["input"]
@@ -102,7 +103,7 @@ def call_site_task():
 
 def build(tier, seed):
     set_tier(tier)
-    tasks = [a_task(PROP, _analyse), a_task(PROP, _ics), call_site_task(), bounded_task(seed)]
+    tasks = [a_task(PROP, _analyse), a_task(PROP, _ics), call_site_task(), bounded_task(seed, tier)]
     meta = {
         "trusted_base": TRUSTED_BASE,
         "assumptions": PYVC_ASSUMPTIONS + [
